@@ -213,8 +213,18 @@ class _Helper(object):
                                 return False
             elif isinstance(s, (ast.FunctionDef, ast.AsyncFunctionDef)):
                 continue
+            elif isinstance(s, (ast.With, ast.AsyncWith)) and last and any(isinstance(x, ast.Return) for x in _walk_own(s)):
+                # `with cm: ...; return E` as the helper's last statement: the value is taken inside the block, the block is left right after
+                if not self._returns_in_tail(s.body):
+                    return False
+            elif isinstance(s, ast.Try) and last and not s.orelse and any(isinstance(x, ast.Return) for x in _walk_own(s)):
+                # a try statement as the helper's last statement: returns in tail position of its body / handlers
+                if not self._returns_in_tail(s.body) or not all(self._returns_in_tail(h.body) for h in s.handlers):
+                    return False
+                if any(isinstance(x, ast.Return) for st in s.finalbody for x in _walk_own(st)):
+                    return False
             elif any(isinstance(x, ast.Return) for x in _walk_own(s)):
-                return False          # return inside a loop / try / with
+                return False          # return inside a loop, or inside a try / with that is not the last statement
         return True
 
 
@@ -277,6 +287,21 @@ def _tail(body, mk, at):
             else:
                 nb, ne = _tail(list(s.body) + rest, mk, at), _tail(s.orelse, mk, at)
             out.append(ast.copy_location(ast.If(test=s.test, body=nb or [ast.copy_location(ast.Pass(), s)], orelse=ne), s))
+            return out
+        if isinstance(s, (ast.With, ast.AsyncWith)) and i == len(body) - 1 and _has_return([s]):
+            ns = copy.copy(s)
+            ns.body = _tail(s.body, mk, at)
+            out.append(ns)
+            return out
+        if isinstance(s, ast.Try) and i == len(body) - 1 and _has_return([s]):
+            ns = copy.copy(s)
+            ns.body = _tail(s.body, mk, at)
+            ns.handlers = []
+            for h in s.handlers:
+                nh = copy.copy(h)
+                nh.body = _tail(h.body, mk, at)
+                ns.handlers.append(nh)
+            out.append(ns)
             return out
         out.append(s)
     if not (out and isinstance(out[-1], ast.Raise)):
@@ -460,6 +485,40 @@ class Inliner(object):
                     s.test = ast.copy_location(ast.UnaryOp(op=ast.Not(), operand=ref), t) if neg else ref
                     out.extend(self.block([pre], fn, names | {nm}, cls_stack))
                     out.append(s)
+                    continue
+            # a list comprehension whose element calls a helper: written as the loop it abbreviates (`acc = []; for ..: acc.append(elt)`), so that
+            # the helper call becomes a statement-level call that can be inlined.  The loop variable must not be a name the function uses otherwise.
+            lc = getattr(s, 'value', None) if isinstance(s, (ast.Assign, ast.Return)) else None
+            if isinstance(lc, ast.ListComp) and len(lc.generators) == 1 and not lc.generators[0].is_async \
+                    and any(self._callee(x, cls_stack) for x in ast.walk(lc.elt) if isinstance(x, (ast.Call, ast.Await))) \
+                    and (isinstance(s, ast.Return) or (len(s.targets) == 1 and isinstance(s.targets[0], ast.Name))):
+                gen = lc.generators[0]
+                tn = set(x.id for x in ast.walk(gen.target) if isinstance(x, ast.Name))
+                outside = set(x.id for x in ast.walk(fn) if isinstance(x, ast.Name) and not any(x is y for y in ast.walk(lc)))
+                acc_clash = isinstance(s, ast.Assign) and any(isinstance(x, ast.Name) and x.id == s.targets[0].id for x in ast.walk(lc))
+                if not (tn & outside) and not acc_clash:
+                    if isinstance(s, ast.Return):
+                        self.tmp += 1
+                        acc = '_v%d' % self.tmp
+                    else:
+                        acc = s.targets[0].id
+                    init = ast.copy_location(ast.Assign(targets=[ast.Name(id=acc, ctx=ast.Store())], value=ast.List(elts=[], ctx=ast.Load())), s)
+                    app = ast.copy_location(ast.Expr(value=ast.Call(func=ast.Attribute(value=ast.Name(id=acc, ctx=ast.Load()), attr='append', ctx=ast.Load()),
+                                                                    args=[lc.elt], keywords=[])), s)
+                    inner = [app]
+                    for cond in reversed(gen.ifs):
+                        inner = [ast.copy_location(ast.If(test=cond, body=inner, orelse=[]), s)]
+                    loop = ast.copy_location(ast.For(target=gen.target, iter=gen.iter, body=inner, orelse=[], type_comment=None), s)
+                    for x in ast.walk(loop.target):
+                        if isinstance(x, ast.Name):
+                            x.ctx = ast.Store()
+                    new_ = [init, loop]
+                    if isinstance(s, ast.Return):
+                        new_.append(ast.copy_location(ast.Return(value=ast.Name(id=acc, ctx=ast.Load())), s))
+                    for x in new_:
+                        ast.fix_missing_locations(x)
+                    self.count += 1
+                    out.extend(self.block(new_, fn, names | {acc} | tn, cls_stack))
                     continue
             # a helper call that is a direct argument of the statement's outermost call, with only call-free arguments before it:
             # its value is taken into a temporary first (same evaluation order), then treated as an assignment from the helper
